@@ -69,7 +69,7 @@ class SideEffectFormulaGen(gen_formula.FormulaGen):
 
 
 def plan(tier, seed):
-  n, steps, k = (16, 30, 7) if tier == 'quick' else (128, 60, 9)
+  n, steps, k = (16, 30, 7) if tier == 'quick' else (64, 50, 8)
   return [{'scenario': 'group_evaluation'}, {'scenario': 'lookup_helper'}, {'scenario': 'derived'}, {'scenario': 'summary'}] + \
          [{'hseed': seed * 100003 + 29000 + i, 'steps': steps, 'calls': k} for i in range(n)]
 
@@ -374,6 +374,8 @@ class ReadOnlyMonitor(histories.Monitor):
           p.try_apply(json.loads(json.dumps(actions)))
         r2, err = p.try_apply([['Calculate']])
         return err is None and json.dumps(r2.stored, sort_keys=True, default=repr) == json.dumps(r.stored, sort_keys=True, default=repr)
+    except histories.Watchdog:
+      raise                  # inconclusive, never a violation
     except Exception:      # pylint: disable=broad-except
       return False
 
@@ -381,7 +383,7 @@ class ReadOnlyMonitor(histories.Monitor):
 # ------------------------------------------------------------------------------------------------ deterministic scenarios
 def scenario_derived(acc):
   """Formulas whose evaluation for a *new* key adds a record elsewhere: every evaluating call is judged."""
-  with EngineProc() as p:
+  with EngineProc(timeout=240.0) as p:
     p.init_doc()
     p.apply([['AddTable', 'Dst', [{'id': 'K', 'type': 'Text', 'isFormula': False}, {'id': 'N', 'type': 'Int', 'isFormula': False},
                                   {'id': 'Cnt', 'type': 'Any', 'isFormula': True, 'formula': 'len(Src.lookupRecords(K=$K))'}]]])
@@ -409,7 +411,7 @@ def scenario_derived(acc):
 
 def scenario_summary(acc):
   """Summary tables (the built-in user of lookupOrAddDerived): helper columns, group columns, empty groups."""
-  with EngineProc() as p:
+  with EngineProc(timeout=240.0) as p:
     p.init_doc()
     p.apply([['AddTable', 'T', [{'id': 'A', 'type': 'Text', 'isFormula': False}, {'id': 'B', 'type': 'ChoiceList', 'isFormula': False},
                                 {'id': 'N', 'type': 'Numeric', 'isFormula': False},
@@ -452,7 +454,7 @@ def scenario_group_evaluation(acc):
   evaluates getSummarySourceGroup with the AttributeRecorder wrapper in place of the record; the lookup by the wrapper
   finds nothing, so the wrapper is put into DocModel._auto_remove_set (a side effect outside the action log, which the
   undo-to-checkpoint of get_formula_value cannot revert) and the next bundle fails in apply_auto_removes."""
-  with EngineProc() as p:
+  with EngineProc(timeout=240.0) as p:
     p.init_doc()
     p.apply([['AddTable', 'T', [{'id': 'A', 'type': 'Text', 'isFormula': False}]]])
     p.apply([['BulkAddRecord', 'T', [None, None], {'A': ['x', 'y']}]])
@@ -488,7 +490,7 @@ def scenario_group_evaluation(acc):
 
 def scenario_lookup_helper(acc):
   """Witness of the open finding lookup_index_touched_by_formula_evaluation."""
-  with EngineProc() as p:
+  with EngineProc(timeout=240.0) as p:
     p.init_doc()
     p.apply([['AddTable', 'T', [{'id': 'A', 'type': 'Int', 'isFormula': False}, {'id': 'N', 'type': 'Any', 'isFormula': True, 'formula': 'len(T.all)'}]]])
     p.apply([['BulkAddRecord', 'T', [None, None], {'A': [1, 2]}]])
@@ -562,7 +564,8 @@ def run_shard(spec, acc):
     return globals()['scenario_' + spec['scenario']](acc)
   rnd = random.Random(spec['hseed'] ^ 0x29c0ffee)
   mon = ReadOnlyMonitor(spec.get('calls', 6), rnd)
-  h = histories.History(acc, spec['hseed'], [mon], spec['steps'], weights=WEIGHTS, flags=FLAGS, avoid_open_triggers=False)
+  h = histories.History(acc, spec['hseed'], [mon], spec['steps'], weights=WEIGHTS, flags=FLAGS, avoid_open_triggers=False,
+                        proc_kw={'timeout': 240.0})
   h.gen.fgen = SideEffectFormulaGen(h.rnd, off=h.gen.flags['formula_off'])
   h.run()
   acc.count('skipped_listed_lookup_helper_trigger', getattr(mon.gen, 'skipped_lookup_trigger', 0))
